@@ -477,7 +477,7 @@ FAMILIES = {
     "map": [("set", "vxx", 8), ("adjoin", "vxx", 2), ("replace", "vxx", 2), ("delete", "vx", 6), ("delete2", "vxx", 1), ("bump", "vxx", 2),
             ("union", "vv", 2), ("inter", "vv", 2), ("diff", "vv", 2), ("xor", "vv", 2), ("filter", "vm", 1), ("setx", "vxx", 2), ("copy", "v", 1),
             ("ref", "vx", 5), ("has", "vx", 2), ("size", "v", 2), ("sumv", "v", 1), ("keys", "v", 1), ("empty", "v", 1)],
-    "ra": [("cons", "vx", 8), ("cdr", "v", 4), ("set", "vix", 5), ("tail", "vi", 2), ("append", "vv", 2), ("reverse", "v", 1), ("map1", "v", 1),
+    "ra": [("cons", "vx", 8), ("cdr", "v", 4), ("set", "vix", 5), ("refupd", "vi", 3), ("tail", "vi", 2), ("append", "vv", 2), ("reverse", "v", 1), ("map1", "v", 1),
            ("oflist", "xxx", 1), ("car", "v", 2), ("ref", "vi", 5), ("len", "v", 2)],
     "deque": [("addf", "vx", 6), ("addb", "vx", 6), ("remf", "v", 5), ("remb", "v", 5), ("take", "vi", 1), ("drop", "vi", 1), ("taker", "vi", 1),
               ("dropr", "vi", 1), ("append", "vv", 2), ("reverse", "v", 2), ("map1", "v", 1), ("filter", "vm", 1), ("oflist", "xxx", 1),
@@ -494,6 +494,12 @@ FAMILIES = {
            ("setlist", "sxxx", 1), ("removeall", "s", 1), ("map1x", "s", 1), ("map1", "ss", 1), ("front", "s", 2), ("back", "s", 2), ("empty", "s", 1)],
 }
 FAMILIES["hmap"] = FAMILIES["map"]
+# ordered mappings only: mapping-range*, mapping-catenate (tree-split / tree-catenate of rbtree.scm).  A family of its own because
+# of the genuine defect F-C18-14 (notes/C18.md: black-height never counts a node, so tree-catenate builds invalid red-black trees
+# and a later delete/union fails with "tree does not match any pattern"); run only when known_findings.json lists OMAP_SIG
+FAMILIES["omap"] = [("set", "vxx", 6), ("delete", "vx", 5), ("rlt", "vx", 2), ("rle", "vx", 2), ("rgt", "vx", 2), ("rge", "vx", 2), ("cat", "vxx", 3),
+                    ("cat2", "vvxx", 3), ("union", "vv", 1), ("ref", "vx", 3), ("size", "v", 1), ("keys", "v", 1)]
+OMAP_SIG = "hist:omap:split-catenate"
 # (chibi iset) inside the Coq model (coq/C18/ISet.v): the operations the model mirrors; the dump is the real tree
 FAMILIES["isett"] = [("adjoin", "vx", 10), ("adjoin2", "vxx", 2), ("adjoinx", "vx", 2), ("delete", "vx", 6), ("deletex", "vx", 2), ("union", "vv", 2),
                      ("unionx", "vv", 1), ("copy", "v", 1), ("oflist", "xxx", 1), ("has", "vx", 4), ("size", "v", 2), ("sum", "v", 1), ("empty", "v", 1)]
@@ -513,8 +519,8 @@ def is_query(fam, op):
 # comparator's hash of a fixnum n is basis xor (2n+1) cut to 60 bits, so n + j*32^k share the k lowest trie levels
 # and n + j*2^59 collide completely.
 NODE_W = {"iset": 128, "isett": 128, "hmap": 32}
-ADD_OP = {"set": "adjoin", "iset": "adjoin", "isett": "adjoin", "bag": "adjoin", "map": "set", "hmap": "set"}
-TREE_FAMS = ("set", "iset", "isett", "bag", "map", "hmap")
+ADD_OP = {"set": "adjoin", "iset": "adjoin", "isett": "adjoin", "bag": "adjoin", "map": "set", "hmap": "set", "omap": "set"}
+TREE_FAMS = ("set", "iset", "isett", "bag", "map", "hmap", "omap")
 
 
 def make_universe(rng, fam):
@@ -690,7 +696,7 @@ def gen_build_history(rng, fam, length):
         h.random_op(recent=0.85)
     # deletions of what was inserted, on the newest version, with membership queries between
     dels = order_by(rng, list(dict.fromkeys(uni["used"])), rng.choice(ORDERS))
-    qop = "ref" if fam in ("map", "hmap") else ("count" if fam == "bag" else "has")
+    qop = "ref" if fam in ("map", "hmap", "omap") else ("count" if fam == "bag" else "has")
     dop = "decr" if fam == "bag" else "delete"
     for x in dels:
         if len(h.prog) >= length:
@@ -720,6 +726,7 @@ def gen_seq_build_history(rng, fam, length):
         for i in idx[:: max(1, len(idx) // 8)]:
             h.emit("set", [built, i, 99])
             h.emit("ref", [h.newest(), i])
+            h.emit("refupd", [built, i])
             h.emit("tail", [built, i])
         cur = built
         while len(h.prog) < length - 2 and n > 0:
@@ -866,6 +873,75 @@ def hist_replay(expr, expected):
             "> /tmp/c18-replay.scm; chibi-scheme /tmp/c18-replay.scm   # answers are separated by ';'; expected answer of the last operation: %s" % (expr, expected))
 
 
+def par_run_cases(d, exprs, prelude, nproc=4):
+    """scm.run_cases over interleaved quarters of the cases in 4 processes (results in the original order)"""
+    from concurrent.futures import ThreadPoolExecutor
+    parts = [list(range(k, len(exprs), nproc)) for k in range(nproc)]
+    with ThreadPoolExecutor(nproc) as ex:
+        outs = list(ex.map(lambda idx: scm.run_cases(d, [exprs[i] for i in idx], prelude_extra=prelude, chunk=200), parts))
+    res = [None] * len(exprs)
+    for idx, o in zip(parts, outs):
+        for i, r in zip(idx, o):
+            res[i] = r
+    return res
+
+
+KEY_FUNCS = {   # the functions whose every clause the shape-targeted histories are meant to reach
+    "srfi/146/rbtree.scm": ["balance", "rotate", "min+delete", "tree-search", "redden", "blacken", "white->black", "tree-catenate", "tree-split"],
+    "chibi/iset/constructors.scm": ["iset-adjoin-node!", "iset-should-merge-left?", "iset-should-merge-right?", "iset-merge-left!", "iset-merge-right!",
+                                    "%iset-delete1!", "iset-delete1!", "iset-insert-left!", "iset-insert-right!", "iset-node-split", "iset-node-extract",
+                                    "iset-squash-bits!", "iset-adjoin-node-left!", "iset-adjoin-node-right!", "iset-intersection2!", "iset-difference2!"],
+    "chibi/iset/base.scm": ["iset-contains?"],
+    "srfi/146/hamt.scm": None, "srfi/101.scm": None, "srfi/134.scm": None, "srfi/146/mapping.scm": None, "srfi/117/queue.scm": None,
+}
+
+
+def check_coverage(ctx, d, exprs, prelude):
+    """measure (not judge) which clauses of the container code the histories of this run reach: the same histories are run
+    once more against an instrumented copy of the libraries (gen/c18_cov.py)"""
+    from gen import c18_cov
+    from concurrent.futures import ThreadPoolExecutor
+    covdir = os.path.join(B.SCRATCH, "C18-cov-lib")
+    try:
+        probes = c18_cov.build(os.path.join(d, "lib"), covdir)
+    except Exception as e:                                         # a source the instrumenter cannot read: coverage unknown
+        ctx.note("clause coverage probe could not instrument the sources: %r" % (e,))
+        return
+    env = {"CHIBI_MODULE_PATH": covdir + ":" + os.path.join(d, "lib")}
+    nproc = 4
+    parts = [[exprs[i] for i in range(k, len(exprs), nproc)] + ["(cov-dump)"] for k in range(nproc)]
+    with ThreadPoolExecutor(nproc) as ex:
+        outs = list(ex.map(lambda es: scm.run_cases(d, es, prelude_extra=prelude + c18_cov.DUMP, chunk=100000, extra_env=env), parts))
+    hits = set()
+    for o in outs:
+        last = o[-1] or ""
+        if not last.startswith("("):
+            ctx.note("clause coverage probe: an instrumented run did not finish (%s)" % last[:200])
+            continue
+        hits.update(int(x) for x in last.strip("()").split())
+    table, unreached_key = {}, []
+    for i, (f, fn, form, k, line) in enumerate(probes):
+        t = table.setdefault(f, dict(clauses=0, reached=0))
+        t["clauses"] += 1
+        t["reached"] += i in hits
+        keys = KEY_FUNCS.get(f)
+        if keys is not None and fn in keys:
+            t2 = table.setdefault(f + ":" + fn, dict(clauses=0, reached=0))
+            t2["clauses"] += 1
+            t2["reached"] += i in hits
+            if i not in hits:
+                unreached_key.append("%s:%d %s %s#%d" % (f, line, fn, form, k))
+    ctx.cov["clause_coverage"] = dict(rule="one counter per cond/case/tree-match/when/unless clause and per if branch inside the top-level "
+                                           "procedures of the listed files; reached = executed at least once by this run's histories",
+                                      per_file_and_function=table, unreached_in_key_functions=unreached_key)
+    tot = lambda f: "%d/%d" % (table[f]["reached"], table[f]["clauses"]) if f in table else "-"
+    ctx.note("measured clause coverage of the history tier: rbtree.scm %s (rotate %s, balance %s, min+delete %s, tree-search %s), iset constructors %s "
+             "(iset-adjoin-node! %s), hamt.scm %s, 101.scm %s, 134.scm %s; unreached clauses of the key functions: %s"
+             % (tot("srfi/146/rbtree.scm"), tot("srfi/146/rbtree.scm:rotate"), tot("srfi/146/rbtree.scm:balance"), tot("srfi/146/rbtree.scm:min+delete"),
+                tot("srfi/146/rbtree.scm:tree-search"), tot("chibi/iset/constructors.scm"), tot("chibi/iset/constructors.scm:iset-adjoin-node!"),
+                tot("srfi/146/hamt.scm"), tot("srfi/101.scm"), tot("srfi/134.scm"), "; ".join(unreached_key) or "none"))
+
+
 def strip_shapes(t):
     """an isett answer is <tree>/<listing><marks>: drop the tree"""
     return re.sub(r"\([^;|/]*/", "", t)
@@ -874,12 +950,24 @@ def strip_shapes(t):
 def check_histories(ctx, d, exe, corpus_hist=()):
     rng = ctx.rng
     prelude = open(os.path.join(HERE, "..", "harness", "c18_hist.scm")).read()
-    per = 30 if not ctx.thorough else 1200
+    per = 30 if not ctx.thorough else 400
     items = list(corpus_hist)
     ntarget = 0
     for it in targeted_histories(rng):
         items.append(it); ntarget += 1
+    import json as _json
+    try:
+        kf = _json.load(open(os.path.join(HERE, "..", "known_findings.json")))
+        omap_on = any(f.get("sig") == OMAP_SIG and f.get("property") == "C18" for f in kf.get("findings", [])) or os.environ.get("C18_OMAP") == "1"
+    except Exception:
+        omap_on = os.environ.get("C18_OMAP") == "1"
+    if not omap_on:
+        ctx.assume("mapping-range<,<=,>,>= / mapping-catenate (tree-split, tree-catenate of srfi/146/rbtree.scm) are NOT exercised: they carry the genuine "
+                   "defect F-C18-14 (notes/C18.md (e)14; minimal input there); the 'omap' history family runs once known_findings.json lists " + OMAP_SIG +
+                   " (or with C18_OMAP=1) and then reports it as a known finding")
     for fam in FAMILIES:
+        if fam == "omap" and not omap_on:
+            continue
         for k in range(per):
             length = rng.choice([3, 8, 20, 50, 100, 200]) if k % 4 else 200
             items.append((fam, gen_history(rng, fam, length)))
@@ -905,7 +993,7 @@ def check_histories(ctx, d, exe, corpus_hist=()):
         if strip_shapes(spec[i]) != o:
             ctx.broken("model:iset-tree-vs-set-oracle", "the extracted iset model and the set oracle differ on %s" % reqs[i][:1500])
             break
-    impl = scm.run_cases(d, exprs, prelude_extra=prelude, chunk=200)
+    impl = par_run_cases(d, exprs, prelude)
     ctx.note("history wall time: model %.1f s, implementation %.1f s" % (t1 - t0, _t.time() - t1))
     seen = set()
     nerr = {}
@@ -931,7 +1019,9 @@ def check_histories(ctx, d, exe, corpus_hist=()):
         if got is None or not got.endswith("]") and ("ERR" in got or "CRASH" in got or "TIMEOUT" in got):
             # the history died: find the shortest prefix that dies (an operation only depends on earlier versions)
             nerr[fam] = nerr.get(fam, 0) + 1
-            if nerr[fam] > 3:              # bisecting costs a process per step: only for the first few per library
+            if nerr[fam] > 3 or (fam == "omap" and OMAP_SIG in seen):   # bisecting costs a process per step: only for the first few per library
+                if fam == "omap":
+                    continue
                 if "hist:%s:error" % fam not in seen:
                     seen.add("hist:%s:error" % fam)
                     ctx.violation("hist:%s:error" % fam, input=e[:4000], expected=s[:300], observed=got, why="the history raised an error / crashed",
@@ -946,7 +1036,7 @@ def check_histories(ctx, d, exe, corpus_hist=()):
                 else:
                     hi = mid
             cut = prog[:hi]
-            sig = "hist:%s:%s:error" % (fam, cut[-1][0])
+            sig = "hist:%s:%s:error" % (fam, cut[-1][0]) if fam != "omap" else OMAP_SIG
             if sig not in seen:
                 seen.add(sig)
                 ctx.violation(sig, input=hist_scheme(fam, cut)[:4000], expected="answer " + s.split("|")[0].split(";")[hi - 1][:300], observed=got,
@@ -960,6 +1050,8 @@ def check_histories(ctx, d, exe, corpus_hist=()):
             exp_s, got_s = s.split("|")[-1][:400], (got or "").split("|")[-1][:400]
         else:
             sig, cut, why = "hist:%s:%s" % (fam, prog[k][0]), prog[:k + 1], "answer of operation %d %s differs" % (k, prog[k])
+            if fam == "omap":
+                sig = OMAP_SIG
             exp_s, got_s = so[k][:400], (go[k] if k < len(go) else (got or "")[:300])
         if sig in seen:
             continue
@@ -976,6 +1068,7 @@ def check_histories(ctx, d, exe, corpus_hist=()):
                     why = "answer of the last operation %s differs (history sliced to its dependencies)" % (sl[-1],)
         ce = hist_scheme(fam, cut)
         ctx.violation(sig, input=ce[:4000], expected=exp_s, observed=got_s, why=why, replay=hist_replay(ce, exp_s))
+    check_coverage(ctx, d, exprs if not ctx.thorough else exprs[::5], prelude)   # thorough: every 5th history
     ctx.sample(dict(kind="history", expr=exprs[1][:300], spec=spec[1][:300], impl=(impl[1] or "")[:300]))
 
 
@@ -1004,6 +1097,8 @@ def run(ctx):
                        "plus seeded sizes with ties forced across the two inputs; containers: seeded operation histories (3-200 ops, one "
                        "evaluation per operation) per library over earlier versions (70% recent, 30% any older), every answer compared with the "
                        "extracted abstract model and all versions re-dumped at the end; a history is distinct by its text")
+    from gen import c18_iset
+    c18_iset.regen(ctx)            # (G) coq/Gen/C18_ISetGuards.v from lib/chibi/iset/constructors.scm
     ctx.coq_obligations("Properties_C18")
     d = ctx.build("default")
     exe = ctx.extract("C18")
